@@ -148,7 +148,8 @@ Fixpoint unsent_rel (fuel : nat) (cf : cfg) (now : Z) (chs : list change) (p : r
     | Some n =>
       if rp_hs p + 1 <? n then
         let '(p1, hb) := gen_hb p chs now in
-        unsent_rel f cf now chs (set_hs p1 n) (acc ++ [toR [SGap (rp_hs p + 1) n; hb]])
+        (* only the hole is marked as sent: the change n itself is sent by the next iteration *)
+        unsent_rel f cf now chs (set_hs p1 (n - 1)) (acc ++ [toR [SGap (rp_hs p + 1) n; hb]])
       else
         match lookup_relevant p n chs with
         | Some c =>
@@ -185,7 +186,7 @@ Fixpoint req_loop (fuel : nat) (cf : cfg) (now : Z) (chs : list change) (p : rpr
 Definition write_rel (cf : cfg) (now : Z) (chs : list change) (p : rproxy) : rproxy * list dgram :=
   let '(p1, out1) :=
     match next_unsent p chs with
-    | Some _ => unsent_rel (S (length chs)) cf now chs p []
+    | Some _ => unsent_rel (S (2 * length chs)) cf now chs p []   (* a hole and a change per held change at most *)
     | None =>
       if negb (unacked p (zmax_list (sns chs))) then (p, [])
       else if time_for_hb p now then let '(p', hb) := gen_hb p chs now in (p', [toR [hb]])
@@ -205,7 +206,7 @@ Fixpoint write_be_loop (fuel : nat) (cf : cfg) (chs : list change) (p : rproxy) 
       if rp_hs p + 1 <? n then
         write_be_loop f cf chs (set_hs p n) (acc ++ [toR [SGap (rp_hs p + 1) n]])
       else
-        match find_change n chs with       (* no first-relevant test on this path *)
+        match lookup_relevant p n chs with
         | Some c =>
           if 1 <? nfrags cf c
           then write_be_loop f cf chs (set_hs p n) (acc ++ frag_dgrams c (nfrags cf c) [])
@@ -330,9 +331,10 @@ Definition on_frag (cf : cfg) (rel : bool) (w : wproxy) (c : change) (fnum : Z) 
   | None => (w1, None)
   end.
 
-(* handle_gap_submessage: irrelevant_change_set for gap_start .. base-1 (the bitmap is empty) *)
+(* handle_gap_submessage: irrelevant_change_range(gap_start, base-1) (the bitmap is empty): the range is
+   taken only if it is contiguous with what is already accounted for *)
 Definition on_gap (w : wproxy) (start base : Z) : wproxy :=
-  if (start <? base) && (wp_hr w <? base - 1)
+  if (start <? base) && (start <=? avail_max w + 1) && (wp_hr w <? base - 1)
   then mkWP (wp_fa w) (wp_la w) (base - 1) (wp_hb w) (wp_an w) (wp_nf w) (wp_frags w)
   else w.
 
@@ -447,6 +449,7 @@ Definition deliver_sub_R (cf : cfg) (r : reader) (m : submsg) : reader * list dg
     | SFrag c k => let '(w1, oc) := on_frag cf (rd_rel r) w c k in (rd_present r w1 oc, [])
     | SGap a b => (rd_present r (on_gap w a b) None, [])
     | SHb f l c =>
+      if f <=? 0 then (r, []) else     (* a HEARTBEAT with firstSN <= 0 is ignored *)
       let '(w1, out) := on_hb cf w f l c in
       let r1 := rd_present r w1 None in
       (* after every HEARTBEAT: waiters of wait_for_historical_data *)
@@ -629,13 +632,13 @@ Definition act (cf : cfg) (s : state) (a : action) : state * out :=
       else (set_rd s (Some (mkRd true rel tl None [] [] [])), ONone)
     end
   | ADelReader =>
-    (* remove_discovered_reader: the DCPS list forgets the reader and the RTPS reader proxy is deleted
-       (delete_matched_reader); the wait list of wait_for_acknowledgments is NOT re-evaluated *)
-    (mkSt (s_now s) (s_changes s) (s_last s) (s_inst s) (s_log s) None false (s_waits s) (kill_reader (s_rd s))
+    (* remove_discovered_reader: the DCPS list forgets the reader, the RTPS reader proxy is deleted and the
+       wait list of wait_for_acknowledgments is re-evaluated (no reader proxy is left: everybody is answered) *)
+    (mkSt (s_now s) (s_changes s) (s_last s) (s_inst s) (s_log s) None false (drain (s_waits s)) (kill_reader (s_rd s))
           (s_rdead s) (s_net s), ONone)
   | ADelPart =>
     (* the peer deletes its entities (as above), then its participant *)
-    (mkSt (s_now s) (s_changes s) (s_last s) (s_inst s) (s_log s) None false (s_waits s) (kill_reader (s_rd s))
+    (mkSt (s_now s) (s_changes s) (s_last s) (s_inst s) (s_log s) None false (drain (s_waits s)) (kill_reader (s_rd s))
           true (s_net s), ONone)
   | AWfa =>
     if is_acked (s_rp s) (s_last s) then (set_waits s (s_waits s ++ [WReported]), OCode 0)
